@@ -843,6 +843,8 @@ impl<'r, 'a> Th<'r, 'a> {
             Node::DRetry(c) => self.run_api(&**c, ctx),
             Node::PDBoxed(c) => self.run_api(&**c, ctx),
             Node::PDRetry(c) => self.run_api(&**c, ctx),
+            Node::RUnit(u) => self.run_api(*u, ctx),
+            Node::Group(_) => self.st.s().report(Clause::Harness, "a bare container was generated as a top-level target".into()),
         }
     }
 
